@@ -30,17 +30,17 @@ Check C14_always_newer : forall runid r,
   exists c, r_changed (view_row runid r) = Some c /\ (runid <= c)%Z.
 Print Assumptions C14_always_newer.
 
-Theorem C14_newer_dep_is_dirty : forall fuel runid w c f mx seen chg,
+Theorem C14_newer_dep_is_dirty : forall fuel runid w c f r mx seen chg,
   existsb (Nat.eqb f) seen = false ->
-  r_failed (load runid (dbs w) f) = None ->
-  r_changed (load runid (dbs w) f) = Some chg -> (mx < chg)%Z ->
-  is_dirty (S fuel) runid w c f mx seen = Ret (VDirty, w, c, []).
+  r_failed r = None ->
+  r_changed r = Some chg -> (mx < chg)%Z ->
+  is_dirty (S fuel) runid w c f r mx seen = Ret (VDirty, w, c, []).
 Proof. exact is_dirty_newer. Qed.
-Check C14_newer_dep_is_dirty : forall fuel runid w c f mx seen chg,
+Check C14_newer_dep_is_dirty : forall fuel runid w c f r mx seen chg,
   existsb (Nat.eqb f) seen = false ->
-  r_failed (load runid (dbs w) f) = None ->
-  r_changed (load runid (dbs w) f) = Some chg -> (mx < chg)%Z ->
-  is_dirty (S fuel) runid w c f mx seen = Ret (VDirty, w, c, []).
+  r_failed r = None ->
+  r_changed r = Some chg -> (mx < chg)%Z ->
+  is_dirty (S fuel) runid w c f r mx seen = Ret (VDirty, w, c, []).
 Print Assumptions C14_newer_dep_is_dirty.
 
 (* non-vacuity: an always target runs in every run, once per run for two
